@@ -85,6 +85,9 @@ func (c *Case) fault() world.FaultFunc {
 					return failErr{kind, msg, graphql.NewSafeError("%s", msg)}
 				case "wrapped":
 					return failErr{kind, msg, graphql.WrapAsSafeError(errors.New("inner-"+c.Secret), "%s", msg)}
+				case "hidden":
+					// NOT marked safe itself, but wraps a client-safe error: still an internal error
+					return failErr{kind, msg, fmt.Errorf("%s-%s: %w", msg, c.Secret, graphql.NewSafeError("hidden-safe-%s", msg))}
 				default:
 					return failErr{"panic", msg, world.PanicErr{Msg: msg + "-" + c.Secret}}
 				}
@@ -157,8 +160,11 @@ func (c *Case) matchDirect(err error, ri refInfo) error {
 				}
 				return nil
 			}
-		case "plain":
+		case "plain", "hidden":
 			full := msg + "-" + c.Secret
+			if kind == "hidden" {
+				full += ": hidden-safe-" + msg
+			}
 			for _, prefix := range []string{"", c.Query.OpName + "."} {
 				if es == prefix+path+": "+full {
 					return nil
@@ -456,7 +462,7 @@ func genCase(t *rapid.T) (Case, world.Features) {
 		cd := candidates[rapid.IntRange(0, len(candidates)-1).Draw(t, "which")]
 		mod := rapid.IntRange(1, 2).Draw(t, "mod")
 		c.Faults = append(c.Faults, FaultRule{Typ: cd[0], Field: cd[1], Mod: mod, Rem: rapid.IntRange(0, mod-1).Draw(t, "rem"),
-			Kind: rapid.SampledFrom([]string{"plain", "plain", "client", "safe", "wrapped", "panic"}).Draw(t, "kind")})
+			Kind: rapid.SampledFrom([]string{"plain", "plain", "client", "safe", "wrapped", "panic", "hidden"}).Draw(t, "kind")})
 	}
 	return c, feat
 }
